@@ -107,6 +107,11 @@ def run(model, tier="quick"):
     # payouts bounded by the position in the same units (Aave withdraw / repay-with-collateral clamp)
     from .C10 import ledgers
     ledgers(res, model, ["withdraw", "repay"])
+    # a lent LP position redeemed into its vault: the (weth, osqth) amounts the vault absorbs are the pool's amounts of
+    # those tokens whatever the pool's quote token is (a swapped pair credits collateral the LP never held)
+    from . import C01 as _C01
+    effects_check(res, model, "SqueethMarket._redeem_uni_token", _C01.REF_REDEEM,
+                  "redeemed LP: the vault absorbs the pool's weth as ETH collateral and its osqth as burned debt, by token not by position in the pair", _C01.FX)
     # compensation handlers (rollback on a rejected step) must refund exactly what was taken
     from .base_refs import base_helpers, wallet_access
     res.units["wallet_access"] = wallet_access(res, model)
@@ -118,6 +123,10 @@ def run(model, tier="quick"):
     if "R-CACHE" not in res.rules:
         res.rules.append("R-CACHE")
     res.units["aave_cache_writer_methods"] = run_cache(model, res, "AaveV3Market", res.prop)[0]
+    from ..rules.orientx import orientation_rule
+    if "R-ORIENT" not in res.rules:
+        res.rules.append("R-ORIENT")
+    res.units["base_quote_pairs_consumed_outside_uniswap"] = orientation_rule(model, res)["sites"]
     from ..rules.fresh import fresh_rule
     if "R-FRESH" not in res.rules:
         res.rules.append("R-FRESH")
